@@ -233,6 +233,18 @@ pub fn check_malformed(rep: &mut Report, s: &str) {
 }
 
 /// canonical rendering of a parsed constraint of the kinds the Lean model covers (StamModel/StamqlC.lean); None for the others
+/// an operator as `{:?}` prints it, except that strings are written in hex (Rust's Debug escapes characters by a
+/// Unicode table the model does not have)
+fn show_op(op: &DataOperator) -> String {
+    match op {
+        DataOperator::Equals(s) => format!("Equals({})", hex(s)),
+        DataOperator::Not(b) => format!("Not({})", show_op(b)),
+        DataOperator::Or(v) => format!("Or([{}])", v.iter().map(show_op).collect::<Vec<_>>().join(", ")),
+        DataOperator::And(v) => format!("And([{}])", v.iter().map(show_op).collect::<Vec<_>>().join(", ")),
+        other => format!("{:?}", other),
+    }
+}
+
 fn render_cn(c: &Constraint) -> Option<String> {
     let q = |x: &SelectionQualifier| if *x == SelectionQualifier::Metadata { "M" } else { "N" };
     Some(match c {
@@ -246,9 +258,9 @@ fn render_cn(c: &Constraint) -> Option<String> {
         Constraint::TextVariable(v) => format!("textvar {}", hex(v)),
         Constraint::Regex(r) => format!("regex {}", hex(r.as_str())),
         Constraint::DataKey { set, key, qualifier } => format!("datakey {} {} {}", hex(set), hex(key), q(qualifier)),
-        Constraint::KeyValue { set, key, operator, qualifier } => format!("keyvalue {} {} {} {:?}", hex(set), hex(key), q(qualifier), operator),
+        Constraint::KeyValue { set, key, operator, qualifier } => format!("keyvalue {} {} {} {}", hex(set), hex(key), q(qualifier), show_op(operator)),
         Constraint::DataVariable(v, x) => format!("datavar {} {}", hex(v), q(x)),
-        Constraint::KeyValueVariable(v, operator, x) => format!("keyvaluevar {} {} {:?}", hex(v), q(x), operator),
+        Constraint::KeyValueVariable(v, operator, x) => format!("keyvaluevar {} {} {}", hex(v), q(x), show_op(operator)),
         _ => return None,
     })
 }
